@@ -57,6 +57,10 @@ pub enum Op {
     SigAltDer { e: u16, kind: u8 },
     /// segment-info bytes re-encoded non-canonically with the same decoded value (observation)
     InfoAlt { kind: u8 },
+    /// header_and_body of entry `e` replaced by other bytes that decode to the same header and
+    /// body (unknown field appended, the two fields in the other order, a decoy field in front):
+    /// these are not the signed bytes, so entry `e` and all later ones must fail
+    HbAlt { e: u16, kind: u8 },
 }
 
 impl Op {
@@ -84,6 +88,7 @@ impl Op {
             Op::MalleateS { .. } => "malleate-s",
             Op::SigAltDer { .. } => "sig-alt-der",
             Op::InfoAlt { .. } => "info-alt-encoding",
+            Op::HbAlt { .. } => "hb-alt-encoding",
         }
     }
 }
@@ -108,6 +113,7 @@ pub fn op_strat() -> impl Strategy<Value = Op> {
         1 => ix().prop_map(|e| Op::MalleateS { e }),
         1 => (ix(), 0u8..4).prop_map(|(e, kind)| Op::SigAltDer { e, kind }),
         1 => (0u8..4).prop_map(|kind| Op::InfoAlt { kind }),
+        3 => (ix(), 0u8..4).prop_map(|(e, kind)| Op::HbAlt { e, kind }),
     ]
 }
 
@@ -401,6 +407,70 @@ pub fn apply(b: &Built, op: &Op) -> Presented {
             let Some(s) = der_alt(&p.entries[e].1, *kind) else { return degenerate(p) };
             p.entries[e].1 = s;
             p.observe[e] = true;
+            p.focus = e;
+        }
+        Op::HbAlt { e, kind } => {
+            if n == 0 {
+                return degenerate(p);
+            }
+            let e = idx(*e, n);
+            let hb = p.entries[e].0.clone();
+            // top-level fields of HeaderAndBodyInternal: 1 = header, 2 = body (length-delimited)
+            fn fields(b: &[u8]) -> Option<Vec<(usize, usize)>> {
+                let mut out = vec![];
+                let mut i = 0usize;
+                while i < b.len() {
+                    let start = i;
+                    let tag = b[i];
+                    i += 1;
+                    if tag & 7 != 2 || tag & 0x80 != 0 {
+                        return None;
+                    }
+                    let (mut len, mut shift) = (0usize, 0);
+                    loop {
+                        let c = *b.get(i)?;
+                        i += 1;
+                        len |= ((c & 0x7f) as usize) << shift;
+                        shift += 7;
+                        if c & 0x80 == 0 {
+                            break;
+                        }
+                    }
+                    i = i.checked_add(len)?;
+                    if i > b.len() {
+                        return None;
+                    }
+                    out.push((start, i));
+                }
+                Some(out)
+            }
+            let alt = match kind % 4 {
+                // unknown varint field 15 appended
+                0 => {
+                    let mut v = hb.clone();
+                    v.extend_from_slice(&[0x78, 0x01]);
+                    Some(v)
+                }
+                // unknown empty length-delimited field 14 appended
+                1 => {
+                    let mut v = hb.clone();
+                    v.extend_from_slice(&[0x72, 0x00]);
+                    Some(v)
+                }
+                // the top-level fields in reverse order
+                2 => fields(&hb).filter(|f| f.len() >= 2).map(|f| f.iter().rev().flat_map(|(s, e)| hb[*s..*e].to_vec()).collect()),
+                // a decoy (empty) copy of the first field in front: the last occurrence wins
+                _ => fields(&hb).filter(|f| !f.is_empty()).map(|_| {
+                    let mut v = vec![hb[0], 0x00];
+                    v.extend_from_slice(&hb);
+                    v
+                }),
+            };
+            let Some(alt) = alt else { return degenerate(p) };
+            if alt == hb {
+                return degenerate(p);
+            }
+            p.entries[e].0 = alt;
             p.focus = e;
         }
         Op::InfoAlt { kind } => {
